@@ -449,6 +449,20 @@ func (r *gRoot) text() string {
 	return sb.String()
 }
 
+// filesOfRev names the file of a module with revisions name@latest.yang (two revisions of one
+// module may be loaded).
+func filesOfRev(roots []*gRoot) []srcFile {
+	fs := make([]srcFile, len(roots))
+	for i, r := range roots {
+		n := r.Name
+		if len(r.Revisions) > 0 {
+			n += "@" + r.Revisions[0]
+		}
+		fs[i] = srcFile{Name: n + ".yang", Text: r.text()}
+	}
+	return fs
+}
+
 func filesOf(roots []*gRoot) []srcFile {
 	fs := make([]srcFile, len(roots))
 	for i, r := range roots {
@@ -762,8 +776,25 @@ func genRandom(rng *rand.Rand, idx int) tcase {
 		}
 		roots[from].Leaves = append(roots[from].Leaves, lf)
 	}
+	if len(roots[0].Revisions) > 0 && rng.Intn(12) == 0 {
+		// a second revision of module m0 (older or newer): same keys in the identity dictionary
+		dup := *roots[0]
+		dup.Revisions = []string{[]string{"2018-08-08", "2022-02-02"}[rng.Intn(2)]}
+		dup.Idents = nil
+		for k, id := range roots[0].Idents {
+			if k%2 == 1 {
+				id.Bases = nil
+			}
+			dup.Idents = append(dup.Idents, id)
+		}
+		if len(dup.Idents) > 0 {
+			dup.Idents = append(dup.Idents, gIdent{Name: "extra", Bases: []string{dup.Idents[0].Name}})
+		}
+		dup.Leaves = nil
+		roots = append(roots, &dup)
+	}
 	rng.Shuffle(len(roots), func(i, j int) { roots[i], roots[j] = roots[j], roots[i] })
-	return tcase{Tag: fmt.Sprintf("random #%d", idx), Files: filesOf(roots), Runs: 4}
+	return tcase{Tag: fmt.Sprintf("random #%d", idx), Files: filesOfRev(roots), Runs: 4}
 }
 
 // ---------------------------------------------------------------------------------------------
@@ -820,6 +851,15 @@ func seedCases() []tcase {
 			`module c { namespace "urn:c"; prefix c; revision 2021-02-02; identity t; }`),
 		mk("identity written twice",
 			`module a { namespace "urn:a"; prefix a; identity x; identity y { base x; } identity x { base y; } }`),
+		mk("two revisions of one module",
+			`module m { namespace "urn:m"; prefix m; revision 2019-01-01; identity a; identity x { base a; } }`,
+			`module m { namespace "urn:m"; prefix m; revision 2020-01-01; identity a; identity y { base a; } }`,
+			`module n { namespace "urn:n"; prefix n; import m { prefix m; } identity z { base m:a; } leaf l { type identityref { base m:a; } } }`),
+		mk("three revisions, import by revision-date",
+			`module m { namespace "urn:m"; prefix m; revision 2019-01-01; identity a; identity x { base a; } }`,
+			`module m { namespace "urn:m"; prefix m; revision 2021-01-01; identity a; identity b { base a; } }`,
+			`module m { namespace "urn:m"; prefix m; revision 2020-01-01; identity a; identity y { base a; base x; } }`,
+			`module n { namespace "urn:n"; prefix n; import m { prefix m; revision-date 2019-01-01; } identity z { base m:a; base m:x; } }`),
 		mk("missing import", `module a { namespace "urn:a"; prefix a; import gone { prefix g; } identity x { base g:t; } }`),
 		mk("base named twice, multiple bases",
 			`module a { namespace "urn:a"; prefix a; identity t; identity u; identity x { base t; base t; base u; } identity y { base x; base t; } }`),
